@@ -558,6 +558,23 @@ pub fn mutate_msg(label: &str, bytes: &[u8], m: &MsgMut) -> Option<Vec<u8>> {
     }
 }
 
+/// XORs the leaves of `b` into `a` where the two trees have the same shape (lengths and options
+/// of `a` are kept).
+pub fn xor_into(a: &mut Val, b: &Val) {
+    match (a, b) {
+        (Val::Bool(x), Val::Bool(y)) => *x ^= *y,
+        (Val::U8(x), Val::U8(y)) => *x ^= *y,
+        (Val::U32(x), Val::U32(y)) => *x ^= *y,
+        (Val::U128(x), Val::U128(y)) => *x ^= *y,
+        (Val::B16(x), Val::B16(y)) => x.iter_mut().zip(y).for_each(|(p, q)| *p ^= *q),
+        (Val::Arr32(x), Val::Arr32(y)) => x.iter_mut().zip(y).for_each(|(p, q)| *p ^= *q),
+        (Val::Bytes(x), Val::Bytes(y)) => x.iter_mut().zip(y).for_each(|(p, q)| *p ^= *q),
+        (Val::Opt(Some(x)), Val::Opt(Some(y))) => xor_into(x, y),
+        (Val::Tup(x), Val::Tup(y)) | (Val::Seq(x), Val::Seq(y)) => x.iter_mut().zip(y).for_each(|(p, q)| xor_into(p, q)),
+        _ => {}
+    }
+}
+
 /// Collects every decoded 128-bit field of a message (for the C07 pool).
 pub fn fields128(v: &Val, out: &mut Vec<u128>) {
     match v {
